@@ -29,6 +29,8 @@ def pexpr(e):
         return "'s'"
     if k == 'name':
         return e[1]
+    if k == 'self':
+        return 'self'
     if k == 'tuple':
         es = e[1]
         if len(es) == 1:
@@ -53,6 +55,7 @@ def source(prog):
              '_OPQ_F = _verif_unknown_module.f']
     probes = []
     def_lines = {}
+    meth_lines = {}
     n = 0
     for i, st in enumerate(prog):
         k = st[0]
@@ -67,10 +70,23 @@ def source(prog):
         elif k == 'class':
             def_lines[i] = len(lines) + 1
             lines.append('class %s%s:' % (st[1], '(%s)' % st[2] if st[2] else ''))
-            if not st[3]:
+            init = st[4] if len(st) > 4 else None
+            methods = st[5] if len(st) > 5 else []
+            if not st[3] and not init and not methods:
                 lines.append('    pass')
             for a, e in st[3]:
                 lines.append('    %s = %s' % (a, pexpr(e)))
+            if init:
+                meth_lines[(i, None)] = len(lines) + 1
+                lines.append('    def __init__(%s):' % ', '.join(['self'] + init[0]))
+                if not init[1]:
+                    lines.append('        pass')
+                for a, e in init[1]:
+                    lines.append('        self.%s = %s' % (a, pexpr(e)))
+            for m, ps, ret in methods:
+                meth_lines[(i, m)] = len(lines) + 1
+                lines.append('    def %s(%s):' % (m, ', '.join(['self'] + ps)))
+                lines.append('        return %s' % pexpr(ret))
         elif k == 'probe':
             lines.append('_p%d = %s' % (n, pexpr(st[1])))
             lines.append('_p%d' % n)
@@ -78,6 +94,7 @@ def source(prog):
             n += 1
         else:
             raise ValueError(k)
+    def_lines['methods'] = meth_lines
     return '\n'.join(lines) + '\n', probes, def_lines
 
 
@@ -111,6 +128,10 @@ def run(prog):
             return ['cls', v.__firstlineno__ if hasattr(v, '__firstlineno__') else _class_line(v)]
         code_ = getattr(v, '__code__', None)
         if code_ is not None:
+            if hasattr(v, '__self__') and '.' in getattr(v, '__qualname__', ''):
+                return ['meth', code_.co_firstlineno]
+            # a module-level function reached through an instance is bound as well, but the
+            # definition it points at is the `def` statement
             return ['func', code_.co_firstlineno]
         return ['inst', _class_line(type(v))]
 
@@ -156,6 +177,7 @@ class Gen:
         self.sites = {}            # function -> number of call sites so far
         self.leaf = set()          # functions without a call in their body
         self.mode = []             # stack: 'nocall' while generating call arguments
+        self.cinfo = {}            # class -> init / self attributes / methods
 
     # static guesses: 'int' | 'str' | ('tuple', [g..]) | ('func', name) | ('cls', name) | ('inst', name) | None
     def callable_funcs(self, in_body):
@@ -184,7 +206,11 @@ class Gen:
             if not nocall and self.callable_funcs(in_body):
                 choices += ['call'] * 3
             if not nocall and self.classes:
-                choices += ['inst'] * 2
+                choices += ['inst'] * 4
+            if not nocall and not in_body and any(
+                    isinstance(g, tuple) and g[0] == 'inst' and g[1] in self.cinfo and
+                    (self.init_owner_selfattrs(g[1]) or self.all_methods(g[1])) for g in self_vars.values()):
+                choices += ['member'] * 10
             if any(isinstance(g, tuple) and g[0] in ('inst', 'cls') and g[1] in self.classes and self.all_attrs(g[1]) for g in self_vars.values()):
                 choices += ['attr'] * 3
         k = rng.choice(choices)
@@ -223,7 +249,30 @@ class Gen:
         if k == 'inst':
             c = rng.choice(list(self.classes))
             self.used_call = True
-            return ['call', ['name', c], []], ('inst', c)
+            self.mode.append('nocall')
+            args = [self.expr(depth - 1, params)[0] for _ in range(self.init_arity(c))]
+            self.mode.pop()
+            return ['call', ['name', c], args], ('inst', c)
+        if k == 'member':
+            pool = [(x, g) for x, g in self_vars.items() if isinstance(g, tuple) and g[0] == 'inst'
+                    and g[1] in self.cinfo]
+            x, g = rng.choice(pool)
+            self.used_call = True
+            c = g[1]
+            sattrs = self.init_owner_selfattrs(c)
+            meths = self.all_methods(c)
+            opts = [('s', a) for a in sattrs] + [('m', m) for m in meths]
+            if not opts:
+                return ['name', x], g
+            kind, nm = rng.choice(opts)
+            if kind == 's':
+                return ['attr', ['name', x], nm], None
+            if rng.random() < 0.2:
+                return ['attr', ['name', x], nm], None          # the bound method itself
+            self.mode.append('nocall')
+            args = [self.expr(depth - 1, params)[0] for _ in range(meths[nm])]
+            self.mode.pop()
+            return ['call', ['attr', ['name', x], nm], args], None
         if k == 'attr':
             pool = [(x, g) for x, g in self_vars.items()
                     if isinstance(g, tuple) and g[0] in ('inst', 'cls') and g[1] in self.classes and self.all_attrs(g[1])]
@@ -233,6 +282,80 @@ class Gen:
             a = rng.choice(list(attrs))
             return ['attr', ['name', x], a], attrs[a]
         raise AssertionError
+
+    def init_arity(self, c):
+        seen = set()
+        while c is not None and c not in seen:
+            seen.add(c)
+            info = self.cinfo.get(c)
+            if info is None:
+                return 0
+            if info['init'] is not None:
+                return len(info['init'][0])
+            c = info['base']
+        return 0
+
+    def init_owner_selfattrs(self, c):
+        seen = set()
+        while c is not None and c not in seen:
+            seen.add(c)
+            info = self.cinfo.get(c)
+            if info is None:
+                return []
+            if info['init'] is not None:
+                return list(info['selfattrs'])
+            c = info['base']
+        return []
+
+    def all_methods(self, c):
+        out = {}
+        seen = set()
+        while c is not None and c not in seen:
+            seen.add(c)
+            info = self.cinfo.get(c)
+            if info is None:
+                break
+            for m, n in info['methods'].items():
+                out.setdefault(m, n)
+            c = info['base']
+        return out
+
+    def inst_attr_names(self, c, base, selfattrs, guesses):
+        names = list(selfattrs) + list(guesses)
+        if base is not None:
+            names += list(self.all_attrs(base)) + self.init_owner_selfattrs(base)
+        return names
+
+    def member_expr(self, depth, params, attr_names):
+        """expression for an __init__ right-hand side / a method body: literals, parameters,
+        call-free module names, `self.<attr>`, tuples, conditionals (no calls: keeps jedi below
+        its execution limits)"""
+        rng = self.rng
+        choices = ['int', 'str']
+        if params:
+            choices += ['param'] * 3
+        if attr_names:
+            choices += ['selfattr'] * 2
+        cf = [x for x in self.vars if x in self.callfree]
+        if cf:
+            choices += ['name']
+        if depth > 0:
+            choices += ['tuple', 'tern']
+        k = rng.choice(choices)
+        if k == 'int':
+            return ['int']
+        if k == 'str':
+            return ['str']
+        if k == 'param':
+            return ['name', rng.choice(params)]
+        if k == 'selfattr':
+            return ['attr', ['self'], rng.choice(attr_names)]
+        if k == 'name':
+            return ['name', rng.choice(cf)]
+        if k == 'tuple':
+            return ['tuple', [self.member_expr(depth - 1, params, attr_names) for _ in range(rng.randint(1, 2))]]
+        return ['tern', rng.random() < 0.5, self.member_expr(depth - 1, params, attr_names),
+                self.member_expr(depth - 1, params, attr_names)]
 
     def all_attrs(self, c):
         out = {}
@@ -311,8 +434,34 @@ class Gen:
                     e, g = self.expr(self.depth - 1)
                     attrs.append([a, e])
                     guesses[a] = g
-                prog.append(['class', c, base, attrs])
+                init = None
+                selfattrs = []
+                # __init__ only in classes without a base most of the time (a derived __init__
+                # that hides a base __init__ is a known imprecision, generated rarely)
+                if rng.random() < (0.5 if base is None else 0.08):
+                    ps = ['p%d' % i for i in range(rng.randint(0, 2))]
+                    assigns = []
+                    targets = [rng.choice(['b0', 'b1', 'b2', 'a0']) for _ in range(rng.randint(0, 3))]
+                    # the fragment is pure: an `__init__` right-hand side reads, through `self`,
+                    # only class-level attributes that `__init__` itself never assigns
+                    readable = [a for a in guesses if a not in targets]
+                    for b in targets:
+                        e = self.member_expr(self.depth - 1, ps, readable)
+                        assigns.append([b, e])
+                        selfattrs.append(b)
+                    init = [ps, assigns]
+                methods = []
+                for _ in range(rng.randint(0, 2)):
+                    m = 'm%d' % rng.randint(0, 2)
+                    if any(x[0] == m for x in methods):
+                        continue
+                    ps = ['p%d' % i for i in range(rng.randint(0, 1))]
+                    ret = self.member_expr(self.depth - 1, ps, self.inst_attr_names(c, base, selfattrs, guesses))
+                    methods.append([m, ps, ret])
+                prog.append(['class', c, base, attrs, init, methods])
                 self.classes[c] = (base, guesses)
+                self.cinfo[c] = {'base': base, 'init': init, 'selfattrs': selfattrs,
+                                 'methods': {m[0]: len(m[1]) for m in methods}}
                 self.vars[c] = ('cls', c)
                 self.callfree.add(c)
             else:
